@@ -6,6 +6,7 @@ import GoZero.C16.ProofsSet
 import GoZero.C16.ProofsRW
 import GoZero.C16.ProofsCache2
 import GoZero.C16.ProofsCache3
+import GoZero.C16.ProofsCache4
 import GoZero.C16.ProofsLru
 import GoZero.C16.ProofsConcObjs
 import GoZero.C16.ProofsConcTake
@@ -343,6 +344,38 @@ example : (CacheG.run C12.step (Cache.new 2 300) [.set 1 10 3, .set 2 20 3, .get
       (fun o => (o.evicted, o.expired, o.result))
     = [([], [], none), ([], [], none), ([], [], some 10), ([2], [], none), ([], [], none), ([], [], some 10),
        ([], [], none), ([], [], none), ([], [1], none), ([], [], none), ([], [], some 30)] := by decide
+
+/-! ### Non-positive expiry (`NewCache(0)`, `SetWithExpire(k, v, 0)`, a 1 ns expiry jittered down to 0)
+
+`SetWithExpire` computes `expiry := AroundDuration(expire)` and calls `SetTimer(key, value, expiry)`, which rejects a
+delay ≤ 0 with `ErrArgument`; the error is dropped.  The property text ("returns the latest value set for a key unless
+it was deleted, has expired, or was evicted") has no clause that an entry must eventually expire, so this is modelled
+as the code behaves (`CacheG.setNoTimer`) and not counted as a violation: -/
+
+/-- **`Set` with a non-positive expiry**: the value is stored and returned by the next `Get`, the size bound and the
+recency invariant hold, LRU eviction works as usual — and the timers are left alone (apart from the evicted key's):
+a pending timer of the key keeps running, so the new value expires on the *old* schedule; a new key gets no timer. -/
+theorem set_nonpositive_expiry {T : Type} (ts : TStep T) (c : CacheG T) (h : c.Inv) (k v : Nat) :
+    (CacheG.setNoTimer ts c k v).1.Inv ∧ (CacheG.setNoTimer ts c k v).1.limit = c.limit
+    ∧ (CacheG.get ts (CacheG.setNoTimer ts c k v).1 k).2.result = some v
+    ∧ ((CacheG.setNoTimer ts c k v).2.evicted = [] ∧ (CacheG.setNoTimer ts c k v).1.timers = c.timers
+       ∨ ∃ old, (CacheG.setNoTimer ts c k v).2.evicted = [old] ∧ old ≠ k ∧ c.lru.getLast? = some old
+           ∧ (CacheG.setNoTimer ts c k v).1.timers = (ts c.timers (.remove old)).1) :=
+  setNoTimer_spec ts c h k v
+
+/-- **an entry without a timer never expires**: whatever the number of ticks, it is still there (timer table) -/
+theorem entry_without_timer_never_expires (c : Spec.ACache) (hn : C12.Spec.KeysNodup c.timers) (k : Nat)
+    (hk : k ∉ C12.Spec.keys c.timers) (n : Nat) :
+    alookup (ticksN c n).data k = alookup c.data k :=
+  no_timer_never_expires n c hn k hk
+
+/-- key 1 set with expiry 0 in an empty cache: no timer, still there after 40 ticks; key 2 set with 2 ticks and then
+re-set with expiry 0: the old timer keeps running and removes the new value at the second tick -/
+example : (CacheG.setNoTimer C12.Spec.step (Spec.ACache.new 0) 1 10).1.timers = []
+    ∧ alookup (ticksN (CacheG.setNoTimer C12.Spec.step (Spec.ACache.new 0) 1 10).1 40).data 1 = some 10
+    ∧ alookup (ticksN (CacheG.setNoTimer C12.Spec.step (CacheG.set C12.Spec.step (Spec.ACache.new 0) 2 20 2).1 2 21).1 1).data 2 = some 21
+    ∧ alookup (ticksN (CacheG.setNoTimer C12.Spec.step (CacheG.set C12.Spec.step (Spec.ACache.new 0) 2 20 2).1 2 21).1 2).data 2 = none := by
+  decide
 
 /-! ### The defect of the pinned code (kept as a machine-checked witness)
 
